@@ -156,7 +156,7 @@ func bareExpressible(line string) bool {
 
 func runC15(c *fw.Ctx) {
 	opt := drv.Options{FixedSeed: true}
-	lineAlpha := []string{"", "a", " b", "  c", "\td", "e f", "g ", "# h", "(i)", "j)", "k GET x", "l 200", "é"}
+	lineAlpha := []string{"", "a", " b", "  c", "\td", "e f", "g ", "# h", "(i)", "j)", "k GET x", "l 200", "é", "  ", "\t"}
 	maxLines := 3
 	annLen := 4
 	if !c.Quick() {
@@ -193,6 +193,15 @@ func runC15(c *fw.Ctx) {
 			return
 		}
 		want := refDescription(lines)
+		// a line of blanks only: whether it counts as a blank line is left open by the sentence, so
+		// the normal form is not judged for such texts; that both spellings agree and that the
+		// result is stable under normalising again is
+		loose := false
+		for _, l := range lines {
+			if l != "" && strings.TrimSpace(l) == "" {
+				loose = true
+			}
+		}
 		bareOK := true
 		for _, l := range lines {
 			if !bareExpressible(l) {
@@ -264,7 +273,10 @@ func runC15(c *fw.Ctx) {
 						}{o, val, has}
 						c.Distinct(fmt.Sprintf("%s|%v|%q|%q|%q", h.name, paren, nl, base, lines))
 						sp := map[bool]string{false: "bare", true: "paren"}[paren]
-						if want == "" {
+						if loose && !o.OK() {
+							continue
+						}
+						if want == "" && !loose {
 							if !o.Rejected() {
 								c.Violate("blank-description-accepted", "C15:blank:"+h.name+":"+sp, fmt.Sprintf("%s, %s spelling, blank text %q: %s", h.name, sp, lines, o.Short()), map[string]interface{}{"text": text})
 							}
@@ -275,7 +287,7 @@ func runC15(c *fw.Ctx) {
 							c.Violate("description-rejected", "C15:rejected:"+sp+":"+firstWordsN(o.Msg, 3), fmt.Sprintf("%s, %s spelling, lines %q: %s", h.name, sp, lines, o.Short()), map[string]interface{}{"text": text})
 						case !has:
 							c.Violate("description-missing", "C15:missing:"+h.name+":"+sp, fmt.Sprintf("%s, %s spelling, lines %q: accepted but no description in the catalog", h.name, sp, lines), map[string]interface{}{"text": text})
-						case val != want:
+						case val != want && !loose:
 							c.Violate("description-text", "C15:text:"+sp+":"+descClass(lines, nl), fmt.Sprintf("%s, %s spelling, line end %q, lines %q: catalog has %q, reference %q", h.name, sp, nl, lines, val, want), map[string]interface{}{"text": text})
 						default:
 							// normalising twice changes nothing: the catalog text written as a (parenthesised)
@@ -304,7 +316,7 @@ func runC15(c *fw.Ctx) {
 							if !o2.Crashed() && v2 != val {
 								c.Violate("description-not-idempotent", "C15:idempotent:"+descClass(lines, nl), fmt.Sprintf("%s: catalog text %q written as a description again gives %s %q", h.name, val, o2.Kind, v2), map[string]interface{}{"text": t2})
 							}
-							if !(strings.HasPrefix(val, "(") && strings.HasSuffix(val, ")")) {
+							if tv := strings.TrimSpace(val); !(strings.HasPrefix(tv, "(") && strings.HasSuffix(tv, ")")) { // (a text that, blanks aside, looks like a parenthesised block is read as one by the function; through the API that cannot happen)
 								if again, err := core.VerifDescription([]byte(val)); err != nil || string(again) != val {
 									c.Violate("normaliser-not-idempotent", "C15:idempotent-fn", fmt.Sprintf("normalising %q again gives %q (%v)", val, again, err), map[string]interface{}{"value": val})
 								}
